@@ -562,6 +562,10 @@ func (r *run) planOrigin(g gen, sv *srv) *originPlan {
 		p.pieces = 1 + g.ch(4)
 		p.gap = pick(g, []time.Duration{0, time.Millisecond, time.Second, 10 * time.Second})
 	}
+	if g.ch(8) == 0 {
+		// deep pipelining: more requests outstanding than the proxy queues
+		p.nreq = pick(g, []int{15, 16, 17, 18, 33, 40})
+	}
 	p.end = g.ch(2)
 	return p
 }
